@@ -18,7 +18,7 @@ CHECKS = {
          "deterministic simulation with stall-fault enumeration (device silent after byte k, for every k), exact fake-clock timing oracle", "5/C05"),
  "C06": ("fault_enumeration",
          "For each sampled session the loss point is enumerated over every byte offset (end-of-stream and persistent read error) and every write index (write error); each run is checked for prompt error return of the in-flight call, errors from all later calls, no truncated success, and process survival (a panic in any goroutine kills the worker and is attributed to the run).",
-         "Trusts the device/transport models; 'promptly' is 4 read delays + latency + one poll quantum; one known finding (stale get-prompt inside the retry window) is listed in known-findings.json.",
+         "Trusts the device/transport models; 'promptly' is 4 read delays + latency + one poll quantum; the stale get-prompt finding of earlier rounds is repaired (fix 8cc3438).",
          "deterministic simulation with loss-fault enumeration (eof/readerr after byte k for every k, write error at every write), crash attribution per run", "5/C06"),
  "C07": ("exploration",
          "Seeded search over 9 connection states at Close x 3 transport close behaviours x read delays (zero-grace .. graceful) x second Close x every same-instant order of reader/closer/helper/operation hook points x descheduling faults; hang detection is exact (no enabled goroutine, no timer), goroutine leaks are read from the bubble's stacks, panics kill the worker and are attributed; a free-running -race leg looks for unsynchronised access.",
